@@ -115,6 +115,29 @@ fn rename_vars(s: &mut Sel, map: &[(String, String)]) {
     }
 }
 
+/// Give every variable occurrence its own fresh name; records (outer name, fresh name).
+fn split_vars_val(v: &mut Val, counter: &mut usize, bindings: &mut Vec<(String, String)>) {
+    match v {
+        Val::Var(n) => {
+            *counter += 1;
+            let fresh = format!("x_{n}_{counter}");
+            bindings.push((n.clone(), fresh.clone()));
+            *n = fresh;
+        }
+        Val::Obj(f) => f.iter_mut().for_each(|(_, v)| split_vars_val(v, counter, bindings)),
+        _ => {}
+    }
+}
+
+fn split_vars(s: &mut Sel, counter: &mut usize, bindings: &mut Vec<(String, String)>) {
+    for (_, v) in s.args.iter_mut() {
+        split_vars_val(v, counter, bindings);
+    }
+    if let Some(ch) = &mut s.children {
+        ch.iter_mut().for_each(|c| split_vars(c, counter, bindings));
+    }
+}
+
 fn used_vars(s: &Sel, out: &mut Vec<String>) {
     for (_, v) in &s.args {
         let mut vs = vec![];
@@ -204,8 +227,20 @@ pub fn variant(p: &Project, kind: VariantKind, t: &mut Tape) -> Option<(Project,
             let mut moved: Vec<Sel> = set.drain(a..b).collect();
             let mut vars = vec![];
             moved.iter().for_each(|s| used_vars(s, &mut vars));
-            let map: Vec<(String, String)> = vars.iter().map(|v| (v.clone(), format!("x_{v}"))).collect();
-            moved.iter_mut().for_each(|s| rename_vars(s, &map));
+            // either one inner variable per outer variable, or one inner variable per USE SITE (so that
+            // several distinct inner variables are bound to the same outer value: the substituted keys
+            // of different inner selections then coincide and must still be merged)
+            let per_use_site = t.chance(1, 2);
+            let map: Vec<(String, String)> = if per_use_site {
+                let mut bindings: Vec<(String, String)> = vec![];
+                let mut counter = 0usize;
+                moved.iter_mut().for_each(|s| split_vars(s, &mut counter, &mut bindings));
+                bindings
+            } else {
+                let map: Vec<(String, String)> = vars.iter().map(|v| (v.clone(), format!("x_{v}"))).collect();
+                moved.iter_mut().for_each(|s| rename_vars(s, &map));
+                map
+            };
             let mut new_vars = vec![];
             let mut args = vec![];
             for (from, to) in &map {
